@@ -273,7 +273,7 @@ def facts_qcow2(rng):
     img["l2n"] = (1 << cb) // 8
     hlen = rng.choice([104, 104, 112])
     bfe = rng.random() < 0.6
-    ctype = rng.choice([0, 0, 1]) if hlen > 104 else None
+    ctype = 0 if hlen > 104 else None   # (zstd, type 1, needs a module that is not installed here)
     vf, dvf, info = enc_qcow2.build(img, cluster_bits=cb, K=1, backing_name=name, size_bytes=size, header_length=hlen, compression_type=ctype,
                                     incompat_extra=(8 if ctype else 0), extra_ext=[(enc_qcow2.EXT_FEATURE_TABLE, bytes(range(48)))],
                                     datafile_ext=True, backing_fmt_ext=bfe, end_marker=rng.random() < 0.8)
